@@ -6,7 +6,7 @@ package forwarder
 // C12: faults beyond the proxy become a clean, well-formed error response (or a close).
 //
 //vf:assume C12-map: errors are drawn from a constructor pool (net.OpError timeout/non-timeout for dial/read/write, tls.RecordHeaderError with 5 symbolic header bytes, tls.CertificateVerificationError, tls.AlertError from {40,42,80,255}, martian.ErrorStatus with a status from {400,404,418,499,502,599}, the proxy's own authentication/deny/prohibited errors, context.Canceled, an unclassified error), each bare, wrapped by fmt.Errorf("%w") or by *url.Error; request scheme http/https
-//vf:assume C12-hostile: the client sends one of 6 prefixes (nothing, partial request lines, a TLS record start, a request with a dangling Content-Length) followed by 4 (quick) / 8 (thorough) arbitrary ASCII bytes and closes; non-ASCII junk and longer streams are outside
+//vf:assume C12-hostile: the client sends one of 6 prefixes (nothing, partial request lines, a TLS record start, a request with a dangling Content-Length) followed by 4 (quick) / 6 (thorough) arbitrary ASCII bytes and closes; non-ASCII junk and longer streams are outside
 //vf:assume C12-pipe: faults are injected at the next hop of the real connection loop: round-trip error (from the pool), dial failure of a CONNECT, write failure on the client socket after k bytes, origin body failing after 0/2/4 of 6 announced bytes with a timeout / non-timeout / EOF / decoding error; truncation of a real upstream reply inside net/http's Transport is outside
 
 import (
@@ -236,7 +236,7 @@ func vfH_C12_hostile() {
 	hp := vfNewHTTPProxy(cfg)
 	n := 4
 	if vfrt.Thorough() {
-		n = 8
+		n = 6
 	}
 	prefix := []string{"", "GET ", "GET / HTTP/1.1\r\n", "CONNECT ", "\x16\x03\x01", "GET http://a/ HTTP/1.1\r\nHost: a\r\nContent-Length: "}[vfrt.Choice("prefix", 6)]
 	junk := vfrt.Bytes("junk", n)
